@@ -4,6 +4,7 @@
     buffer, slice views).  Spec: [p_step], a plain byte list with a read offset. *)
 Require Import Model.Bytes Model.Spill Proofs.SpillProofs.
 From Coq Require Import Arith.
+Local Open Scope nat_scope.
 
 (** Every history of Write / WriteString / ReadFrom / Read / Peek / ReadBytes / ReadString /
     Seek(0) / Size / slice views (with their own reads, peeks, line reads, seeks and sizes),
